@@ -783,6 +783,13 @@ func ConvertToObjectSchema(typeOrData any) (Object, bool) {
 				return &objectType, true
 			}
 		}
+		// Likewise for types that embed a ScopeSchema, like TypedScopeSchema: use the root object.
+		field = reflect.Indirect(value).FieldByName("ScopeSchema")
+		if field.IsValid() {
+			if scopeType, ok := field.Interface().(ScopeSchema); ok {
+				return scopeType.RootObject(), true
+			}
+		}
 	}
 	return nil, false
 }
